@@ -357,6 +357,9 @@ func main() {
 	bySig := map[string][]vio{}
 	survivable := map[string][]Dev{} // conv -> single deviations after which the connection stayed open (base cfg)
 	controlOutcome := map[string]string{}
+	statusHist := map[string]int{} // "0" = no answer, "-1" = not sent (connection already closed by the server)
+	closedDuring, aliveAtEnd, withSecond, withTLS := 0, 0, 0, 0
+	classes := map[string]bool{}
 	process := func(cases []Case, results []Result) {
 		for i, r := range results {
 			c := cases[i]
@@ -374,6 +377,22 @@ func main() {
 			}
 			run.Eval(1)
 			run.Outcome(outcomeKey(c, r))
+			for _, st := range r.Statuses {
+				statusHist[fmt.Sprint(st)]++
+			}
+			if r.ClosedAt >= 0 {
+				closedDuring++
+			}
+			if r.Alive {
+				aliveAtEnd++
+			}
+			if c.Cfg.Second {
+				withSecond++
+			}
+			if c.Cfg.TLS {
+				withTLS++
+			}
+			classes[classOf(c.Devs)] = true
 			if len(c.Devs) > 0 && fmt.Sprint(r.Statuses, r.ClosedAt, r.Sessions) != controlOutcome[fmt.Sprint(c.Conv, c.Cfg)] {
 				b, _ := json.Marshal(c)
 				run.NontrivialHash(evid.Hash(string(b)))
@@ -464,20 +483,30 @@ func main() {
 		run.Set("pairs_run", done)
 	}
 
-	// ---- confirm and report: the first case of every new signature is run twice more (all in one batch)
+	// ---- confirm and report: the first case of every new signature (at most maxConfirm signatures) is run twice
+	// more; cases that killed their worker go alone into a job
+	const maxConfirm = 100
 	var sigs []string
 	for s := range bySig {
 		sigs = append(sigs, s)
 	}
 	sort.Strings(sigs)
-	var confirm []Case
+	var confirmSoft, confirmHard []Case
+	where := map[string][2]int{} // signature -> (0 soft / 1 hard, offset)
 	for _, s := range sigs {
-		if !run.IsKnown(s) {
-			confirm = append(confirm, bySig[s][0].c, bySig[s][0].c)
+		if run.IsKnown(s) || len(where) >= maxConfirm {
+			continue
+		}
+		f := bySig[s][0]
+		if f.r.Fail == "crash" || f.r.Fail == "hang" {
+			where[s] = [2]int{1, len(confirmHard)}
+			confirmHard = append(confirmHard, f.c, f.c)
+		} else {
+			where[s] = [2]int{0, len(confirmSoft)}
+			confirmSoft = append(confirmSoft, f.c, f.c)
 		}
 	}
-	rr := runCases(run, confirm, 20)
-	k := 0
+	rerun := [2][]Result{runCases(run, confirmSoft, 20), runCases(run, confirmHard, 1)}
 	for _, s := range sigs {
 		vs := bySig[s]
 		if run.IsKnown(s) {
@@ -487,20 +516,30 @@ func main() {
 			continue
 		}
 		first := vs[0]
-		confirmed := 0
-		for _, r := range rr[k : k+2] {
-			if r.Fail == first.r.Fail {
-				confirmed++
+		note := fmt.Sprintf("not re-run (more than %d new signatures)", maxConfirm)
+		if w, ok := where[s]; ok {
+			confirmed := 0
+			for _, r := range rerun[w[0]][w[1] : w[1]+2] {
+				if r.Fail == first.r.Fail {
+					confirmed++
+				}
 			}
-		}
-		k += 2
-		if confirmed == 0 && first.r.Fail != "crash" {
-			run.Flaky(fmt.Sprintf("%s did not reproduce (2 re-runs): %s", s, first.r.Msg))
-			continue
+			if confirmed == 0 && first.r.Fail != "crash" {
+				run.Flaky(fmt.Sprintf("%s did not reproduce (2 re-runs): %s", s, first.r.Msg))
+				continue
+			}
+			note = fmt.Sprintf("%d of 2 re-runs", confirmed)
 		}
 		for _, v := range vs {
-			run.Violation(s, map[string]any{"case": v.c, "msg": v.r.Msg, "events": v.r.Events, "reproduced": fmt.Sprintf("%d of 2 re-runs", confirmed)})
+			run.Violation(s, map[string]any{"case": v.c, "msg": v.r.Msg, "events": v.r.Events, "reproduced": note})
 		}
 	}
+	run.Set("status_histogram_hostile_connection", statusHist)
+	run.Set("executions_server_closed_hostile_connection_during_attack", closedDuring)
+	run.Set("executions_hostile_connection_open_until_timeout_or_end", aliveAtEnd)
+	run.Set("executions_with_second_connection", withSecond)
+	run.Set("executions_under_tls", withTLS)
+	run.Set("deviation_classes", len(classes))
+	run.Set("tls", "covered: self-signed certificate generated at run time; the hostile and the well-behaved peers speak TLS; RTP/SAVP + KeyMgmt conversations included")
 	run.Finish()
 }
